@@ -1,0 +1,165 @@
+// Verification hook (compiled only with `--cfg cadence_verif`).
+//
+// Pass-through wrappers around `AtomicUsize` and `UnsafeCell` with the method
+// names `state.rs` uses. Every operation calls an installable tracer BEFORE it
+// runs (the tracer may block the calling thread: that is how a test harness
+// schedules threads one operation at a time) and AFTER it, reporting the kind
+// of operation, its `Ordering` argument(s) and the value read or written.
+// With no tracer installed the wrappers behave exactly like the wrapped types.
+
+pub use std::sync::atomic::Ordering;
+
+use std::fmt;
+use std::sync::{Arc, RwLock};
+
+/// One traced operation on a `SingletonHolder`.
+#[derive(Clone, Copy, Debug, PartialEq, Eq)]
+pub enum Op {
+    /// `AtomicUsize::load(order)`
+    Load { order: Ordering },
+    /// `AtomicUsize::store(val, order)`
+    Store { val: usize, order: Ordering },
+    /// `AtomicUsize::compare_exchange(current, new, success, failure)`
+    CompareExchange {
+        current: usize,
+        new: usize,
+        success: Ordering,
+        failure: Ordering,
+    },
+    /// `UnsafeCell::get()`: the caller is about to access the cell's content
+    CellGet,
+}
+
+/// What the operation did (only known after it ran).
+#[derive(Clone, Copy, Debug, PartialEq, Eq)]
+pub enum Outcome {
+    Loaded(usize),
+    Stored,
+    Exchanged(Result<usize, usize>),
+    CellPtr,
+}
+
+#[derive(Clone, Copy, Debug, PartialEq, Eq)]
+pub enum Event {
+    /// about to run `op` on the object at address `obj`
+    Before { obj: usize, op: Op },
+    /// `op` ran
+    After { obj: usize, op: Op, outcome: Outcome },
+}
+
+pub type Tracer = Arc<dyn Fn(&Event) + Send + Sync>;
+
+static TRACER: RwLock<Option<Tracer>> = RwLock::new(None);
+
+/// Install a process-wide tracer (replacing any previous one).
+pub fn install(tracer: Tracer) {
+    *TRACER.write().unwrap_or_else(|e| e.into_inner()) = Some(tracer);
+}
+
+/// Remove the tracer.
+pub fn uninstall() {
+    *TRACER.write().unwrap_or_else(|e| e.into_inner()) = None;
+}
+
+#[inline]
+fn trace(ev: Event) {
+    // the lock is released before the tracer runs: the tracer may block
+    let tracer = TRACER.read().unwrap_or_else(|e| e.into_inner()).clone();
+    if let Some(f) = tracer {
+        f(&ev);
+    }
+}
+
+#[derive(Default)]
+pub struct AtomicUsize(std::sync::atomic::AtomicUsize);
+
+impl AtomicUsize {
+    pub const fn new(v: usize) -> Self {
+        AtomicUsize(std::sync::atomic::AtomicUsize::new(v))
+    }
+
+    fn addr(&self) -> usize {
+        self as *const Self as usize
+    }
+
+    pub fn load(&self, order: Ordering) -> usize {
+        let op = Op::Load { order };
+        trace(Event::Before { obj: self.addr(), op });
+        let v = self.0.load(order);
+        trace(Event::After {
+            obj: self.addr(),
+            op,
+            outcome: Outcome::Loaded(v),
+        });
+        v
+    }
+
+    pub fn store(&self, val: usize, order: Ordering) {
+        let op = Op::Store { val, order };
+        trace(Event::Before { obj: self.addr(), op });
+        self.0.store(val, order);
+        trace(Event::After {
+            obj: self.addr(),
+            op,
+            outcome: Outcome::Stored,
+        });
+    }
+
+    pub fn compare_exchange(
+        &self,
+        current: usize,
+        new: usize,
+        success: Ordering,
+        failure: Ordering,
+    ) -> Result<usize, usize> {
+        let op = Op::CompareExchange {
+            current,
+            new,
+            success,
+            failure,
+        };
+        trace(Event::Before { obj: self.addr(), op });
+        let r = self.0.compare_exchange(current, new, success, failure);
+        trace(Event::After {
+            obj: self.addr(),
+            op,
+            outcome: Outcome::Exchanged(r),
+        });
+        r
+    }
+}
+
+impl fmt::Debug for AtomicUsize {
+    fn fmt(&self, f: &mut fmt::Formatter<'_>) -> fmt::Result {
+        fmt::Debug::fmt(&self.0, f)
+    }
+}
+
+#[derive(Default)]
+pub struct UnsafeCell<T>(std::cell::UnsafeCell<T>);
+
+impl<T> UnsafeCell<T> {
+    pub const fn new(v: T) -> Self {
+        UnsafeCell(std::cell::UnsafeCell::new(v))
+    }
+
+    /// Reported as an access to the cell's content: the caller dereferences
+    /// the pointer right after this returns and before its next traced operation.
+    pub fn get(&self) -> *mut T {
+        let obj = self as *const Self as usize;
+        trace(Event::Before { obj, op: Op::CellGet });
+        let p = self.0.get();
+        trace(Event::After {
+            obj,
+            op: Op::CellGet,
+            outcome: Outcome::CellPtr,
+        });
+        p
+    }
+}
+
+impl<T> fmt::Debug for UnsafeCell<T> {
+    fn fmt(&self, f: &mut fmt::Formatter<'_>) -> fmt::Result {
+        fmt::Debug::fmt(&self.0, f)
+    }
+}
